@@ -661,30 +661,41 @@ def close(a, b):
     return abs(a - b) <= RTOL * max(abs(a), abs(b)) + ATOL
 
 
-def oracle(spec, batched, ss, vals):
+def oracle(spec, batched, ss, vals, extras=False):
     """The property itself on the implementation: value for sample s == value with slice s only.
 
     -> dict(outcome=..., ...) with outcome in
-         'ok'        every sample agrees with its slice
+         'ok'        every sample agrees with its slice (or the result does not depend on the batched
+                     parameters and is returned unbatched)
          'error'     the batched call raised (allowed by the property)
          'noref'     a sliced (unbatched) call raised: nothing to compare with
-         'mix'       same number of entries, a sample's value differs from its slice's value
+         'mix'       right number of entries, a sample's value differs from its slice's value
          'shape'     the result has not prod(sample_shape) x (entries of an unbatched result) entries
     """
     n = 1
     for k in ss:
         n *= k
     try:
-        outs = [o.detach().clone() for o in spec.build(vals)]
+        obj = spec.make(vals)
+        outs = [o.detach().clone() for o in spec.observe(obj)]
     except Exception as e:  # noqa: BLE001
         return dict(outcome="error", err=type(e).__name__, msg=str(e)[:160])
-    refs = []
+    refs, sobj = [], None
     for idx in itertools.product(*[range(k) for k in ss]):
         try:
-            refs.append([o.detach().clone() for o in spec.build(slice_vals(spec, vals, batched, idx))])
+            so = spec.make(slice_vals(spec, vals, batched, idx))
+            refs.append([o.detach().clone() for o in spec.observe(so)])
+            sobj = sobj or so
         except Exception as e:  # noqa: BLE001
             return dict(outcome="noref", err=type(e).__name__, msg=str(e)[:160], shapes=[list(o.shape) for o in outs])
     res = dict(outcome="ok", shapes=[list(o.shape) for o in outs], ref_shapes=[list(o.shape) for o in refs[0]])
+    if extras:
+        try:
+            res["rules"] = collect_rules(spec, obj, batched, list(ss))
+            if spec.group in ("joint", "joint1"):
+                res["joint"] = joint_record(obj, sobj, outs[0])
+        except Exception as e:  # noqa: BLE001
+            res["extras_error"] = f"{type(e).__name__}: {e}"[:200]
     for k, o in enumerate(outs):
         rn = refs[0][k].numel()
         if o.numel() == rn and all(all(close(x, y) for x, y in zip(_tolist(o), _tolist(r[k]))) for r in refs):
@@ -692,56 +703,128 @@ def oracle(spec, batched, ss, vals):
             #                 the (broadcast) value of every sample
         if o.numel() != n * rn:
             res.update(outcome="shape", observable=k,
-                       what=f"result shape {list(o.shape)} for sample shape {list(ss)}; an unbatched call returns "
-                            f"{list(refs[0][k].shape)}", value=_tolist(o)[:8], ref=[_tolist(r[k])[:4] for r in refs[:6]])
+                       what=f"result of shape {list(o.shape)} for sample shape {list(ss)} where an unbatched call "
+                            f"returns shape {list(refs[0][k].shape)}: values {_fmt(_tolist(o)[:4])}, the calls "
+                            f"with single slices return {_fmt([x for r in refs[:4] for x in _tolist(r[k])[:2]])}")
             return res
         rows = o.reshape(n, rn) if rn else o.reshape(n, 0)
-        for s, r in enumerate(refs):
-            a, b = _tolist(rows[s]), _tolist(r[k])
+        for s_, r in enumerate(refs):
+            a, b = _tolist(rows[s_]), _tolist(r[k])
             for x, y in zip(a, b):
                 if not close(x, y):
-                    res.update(outcome="mix", observable=k, sample=s,
-                               what=f"sample {s}: batched call gives {x!r}, the call with slice {s} alone gives {y!r}",
-                               got=a[:6], want=b[:6])
+                    res.update(outcome="mix", observable=k, sample=s_,
+                               what=f"sample {s_} of {list(ss)}: the batched call returns {x!r}, the call with "
+                                    f"slice {s_} alone returns {y!r}")
                     return res
     return res
 
 
-def _debug(argv):
-    import random
-    import collections
-    tier = "quick"
-    specs = catalogue(tier)
-    pat = argv[1] if len(argv) > 1 else ""
-    rng = random.Random(1)
-    tab = collections.OrderedDict()
-    for sp in specs:
-        if pat not in sp.key:
-            continue
-        names = list(sp.params)
-        subsets = []
-        for r in range(1, len(names) + 1):
-            subsets += list(itertools.combinations(names, r))
-        if len(subsets) > 40:
-            subsets = [s for s in subsets if len(s) in (1, len(names))] + rng.sample(subsets, 20)
-        for sub in subsets:
-            for ss in [(1,), (2,), (3,), (4,), (2, 3), (4, 2)]:
-                vals = gen_values(rng, sp, sub, ss)
-                r = oracle(sp, set(sub), ss, vals)
-                k = (sp.key, sub)
-                tab.setdefault(k, []).append((ss, r["outcome"] + (":" + r.get("err", "") if r["outcome"] in ("error", "noref") else ""), r))
-    for (key, sub), rows in tab.items():
-        line = " ".join(f"{'x'.join(map(str, ss))}={o}" for ss, o, _ in rows)
-        print(f"{key:60s} {','.join(sub):40s} {line}")
-        for ss, o, r in rows:
-            if r["outcome"] in ("mix", "shape"):
-                print("      ", ss, r["what"])
-                break
+def _fmt(xs):
+    return "[" + ", ".join(f"{x:.6g}" for x in xs) + "]"
 
 
-if __name__ == "__main__":
-    import sys
-    _debug(sys.argv)
+# ----------------------------------------------------------------------------- what the shape model is fed with
+
+def _ids(m):
+    try:
+        return {p.id for p in m.parameters()}
+    except Exception:  # noqa: BLE001
+        return set()
+
+
+def collect_rules(spec, obj, batched, ss):
+    """(rule, arguments, reported sample_shape, true sample shape) for every object in the graph whose
+    _sample_shape rule is modelled in M_tensor.v"""
+    impl.load()
+    from torchtree.core.container import Container
+    from torchtree.distributions.distributions import Distribution
+    from torchtree.distributions.multivariate_normal import MultivariateNormal
+    from torchtree.evolution.coalescent import AbstractCoalescentModel, ExponentialCoalescentModel
+    from torchtree.evolution.tree_likelihood import TreeLikelihoodModel
+    from torchtree.evolution.poisson_tree_likelihood import PoissonTreeLikelihood
+    from torchtree.evolution.substitution_model.abstract import SymmetricSubstitutionModel
+    from torchtree.evolution.site_model import UnivariateDiscretizedSiteModel
+    from torchtree.distributions.joint_distribution import JointDistributionModel
+    out = []
+
+    def walk(m, bids, depth=0):
+        if depth > 6 or not hasattr(m, "_models"):
+            return
+        truth = list(ss) if (bids & _ids(m)) else []
+        rec = None
+        L = lambda t: [int(k) for k in t]
+        if isinstance(m, Distribution):
+            rec = ("dist", [L(m.x.tensor.shape), L(m.batch_shape)])
+        elif isinstance(m, MultivariateNormal):
+            rec = ("offset", [L(m.x.tensor.shape), L(m.loc.shape[:-1])])
+        elif isinstance(m, ExponentialCoalescentModel):
+            rec = ("longest", [[L(m.tree_model.sample_shape), L(m.theta.shape[:-1]), L(m.growth.shape[:-1])]])
+        elif isinstance(m, AbstractCoalescentModel):
+            rec = ("coal", [L(m.tree_model.sample_shape), L(m.theta.shape)])
+        elif isinstance(m, (TreeLikelihoodModel, PoissonTreeLikelihood)):
+            rec = ("longest", [[L(x.sample_shape) for x in m._models.values()]])
+        elif isinstance(m, (SymmetricSubstitutionModel, UnivariateDiscretizedSiteModel)):
+            rec = ("params", [[L(p.shape) for p in m._parameters.values()]])
+        elif isinstance(m, Container):
+            rec = ("container", [[L(p.shape) for p in m._parameters.values()],
+                                 [L(x.sample_shape) for x in m._models.values()]])
+        if rec is not None and not isinstance(m, JointDistributionModel):
+            out.append(dict(rule=rec[0], args=rec[1], reported=L(m.sample_shape), truth=truth,
+                            cls=type(m).__name__))
+        for sub in m._models.values():
+            walk(sub, bids, depth + 1)
+
+    if spec.group in ("joint", "joint1"):
+        comps = list(obj._distributions._models.values()) + list(obj._distributions._parameters.values())
+        # constructor order = component order (models first, then callable parameters, as callables() yields)
+        for i, sub in enumerate(spec.subs):
+            bids = {b.split(".", 1)[1] for b in batched if b.startswith(f"{i}.")}
+            target = _component_object(obj, spec, i)
+            if target is not None:
+                walk(target, bids)
+        cont = obj._distributions
+        out.append(dict(rule="container", args=[[[int(k) for k in p.shape] for p in cont._parameters.values()],
+                                                [[int(k) for k in x.sample_shape] for x in cont._models.values()]],
+                        reported=[int(k) for k in obj.sample_shape], truth=list(ss) if batched else [],
+                        cls="JointDistributionModel"))
+        del comps
+    else:
+        walk(obj, set(batched))
+    return out
+
+
+def _component_object(joint, spec, i):
+    """the object of component i of a joint built by Spec.make (construction order is kept by the
+    container's ordered dictionaries, models and parameters separately)"""
+    import collections.abc
+    from torchtree.core.abstractparameter import AbstractParameter
+    cont = joint._distributions
+    models = list(cont._models.values())
+    params = list(cont._parameters.values())
+    mi = pi = 0
+    for j, sub in enumerate(spec.subs):
+        is_param = sub.group == "transform"
+        if j == i:
+            return (params[pi] if is_param else models[mi])
+        if is_param:
+            pi += 1
+        else:
+            mi += 1
+    return None
+
+
+def joint_record(joint, slice_joint, out):
+    """component tensors as JointDistributionModel.log_prob sees them (already evaluated: cached)"""
+    comps = list(joint._distributions.callables())
+    scomps = list(slice_joint._distributions.callables())
+    rec = dict(J=[int(k) for k in joint.sample_shape], comps=[], out_shape=[int(k) for k in out.shape],
+               out=_tolist(out))
+    for c, sc in zip(comps, scomps):
+        lp = c()
+        rec["comps"].append(dict(shape=[int(k) for k in lp.shape], rep=[int(k) for k in c.sample_shape],
+                                 data=_tolist(lp), unbatched=[int(k) for k in sc().shape],
+                                 cls=type(c).__name__))
+    return rec
 
 
 # ----------------------------------------------------------------------------- tensor-op correspondence (M_tensor vs torch)
@@ -886,3 +969,452 @@ def decode_t(flat):
         return ("err",)
     r = flat[1]
     return ("ok", flat[2:2 + r], flat[2 + r:])
+
+
+# ----------------------------------------------------------------------------- cases
+
+import concurrent.futures as cf  # noqa: E402
+import json  # noqa: E402
+import os  # noqa: E402
+import random  # noqa: E402
+import time  # noqa: E402
+
+PID = "C10"
+SS1 = [(s,) for s in range(1, 6)]
+SS2 = [(s, k) for s in range(1, 6) for k in range(1, 6)]
+# a pairwise-covering part of the [S,K] shapes (every S and every K in 1..5 occurs, S=K, S=1, K=1, S<K, S>K)
+SS2_COVER = [(1, 1), (2, 2), (3, 3), (5, 5), (1, 3), (3, 1), (2, 3), (4, 2), (2, 5), (5, 4), (3, 4), (4, 1), (1, 5)]
+
+
+def all_shapes(spec):
+    """sample shapes explored for a spec in the thorough tier (the quick tier samples from the same set)"""
+    return SS1 + (SS2 if len(spec.params) <= 4 else SS2_COVER)
+
+
+def subsets(spec, tier, rng):
+    names = list(spec.params)
+    k = len(names)
+    if k == 0:
+        return []
+    if tier == "thorough":
+        out = []
+        for r in range(1, k + 1):
+            out += list(itertools.combinations(names, r))
+        return out
+    # quick: singletons, all-but-one, all  (every pair of parameters occurs batched/batched,
+    # batched/unbatched, unbatched/batched; unbatched/unbatched as soon as there are 3 parameters)
+    fam = [(n,) for n in names] + [tuple(x for x in names if x != n) for n in names] + [tuple(names)]
+    seen, out = set(), []
+    for f in fam:
+        if f and f not in seen:
+            seen.add(f)
+            out.append(f)
+    return out
+
+
+def make_jobs(tier, seed):
+    rng = random.Random(seed)
+    jobs = []
+    for sp in catalogue(tier):
+        shapes = all_shapes(sp)
+        for sub in subsets(sp, tier, rng):
+            if tier == "thorough":
+                sel = shapes
+            else:
+                s1 = [x for x in shapes if len(x) == 1]
+                s2 = [x for x in shapes if len(x) == 2]
+                sel = [rng.choice([x for x in s1 if x[0] >= 2]), rng.choice(s1), rng.choice(s2),
+                       rng.choice([x for x in s2 if x[0] == x[1]] if rng.random() < 0.3 else s2)]
+                sel = list(dict.fromkeys(sel))
+            for ss in sel:
+                jobs.append((tier, sp.key, tuple(sub), tuple(ss), rng.randrange(1 << 30)))
+    return jobs
+
+
+_CAT = {}
+
+
+def _cat(tier):
+    if tier not in _CAT:
+        _CAT[tier] = {sp.key: sp for sp in catalogue(tier)}
+    return _CAT[tier]
+
+
+def find_spec(key):
+    for tier in ("quick", "thorough"):
+        if key in _cat(tier):
+            return _cat(tier)[key]
+    raise KeyError(key)
+
+
+def class_of(spec):
+    if spec.group in ("joint", "joint1"):
+        return "JointDistributionModel"
+    if spec.group == "transform":          # the transform chain is part of the class
+        return "TransformedParameter[" + spec.key.split("/")[1] + "]"
+    return spec.key.split("/")[0]
+
+
+def role(spec, name):
+    """parameter name -> role used in finding keys (so that the key does not depend on which torch
+    distribution / substitution model the catalogue entry happens to use)"""
+    if spec.group in ("joint", "joint1"):
+        i, n = name.split(".", 1)
+        sub = spec.subs[int(i)]
+        return f"{class_of(sub)}.{role(sub, n)}"
+    cls = class_of(spec)
+    if cls == "Distribution":
+        return "x" if name == "x" else "parameter"
+    if cls == "MultivariateNormal" and name not in ("x", "loc"):
+        return "matrix"
+    return name
+
+
+def finding_key(spec, sub, ss, kind):
+    roles = sorted({role(spec, n) for n in sub})
+    return f"C10:{class_of(spec)}:batched={{{','.join(roles)}}}:ss={'[S]' if len(ss) == 1 else '[S,K]'}:{kind}"
+
+
+def units(sub):
+    """removal units: single parameters, and the (ratios, root_height) pair of a reparameterised tree, which
+    can only be batched together"""
+    us = [(n,) for n in sub]
+    for n in sub:
+        if n.endswith("ratios"):
+            m = n[:-len("ratios")] + "root_height"
+            if m in sub:
+                us.append((n, m))
+    return us
+
+
+def minimise(spec, sub, ss, vseed, kind):
+    """greedy, to a fixpoint: drop removal units while the same kind of violation persists"""
+    cur = list(sub)
+    last = None
+    step = 0
+    changed = True
+    while changed and len(cur) > 1:
+        changed = False
+        for u in units(cur):
+            trial = [x for x in cur if x not in u]
+            if not trial:
+                continue
+            step += 1
+            rng = random.Random(vseed * 131 + step)
+            vals = gen_values(rng, spec, set(trial), ss)
+            r = oracle(spec, set(trial), ss, vals)
+            if r["outcome"] == kind:
+                cur = trial
+                last = dict(vals=vals, what=r["what"])
+                changed = True
+                break
+    return dict(sub=cur, last=last)
+
+
+def locally_minimal(viol):
+    """thorough tier (all subsets evaluated): the violating subsets from which no removal unit can be dropped —
+    exactly the sets the greedy minimisation of the quick tier can end in.
+    viol: dict (spec key, frozenset(sub), ss, kind) -> result"""
+    out = []
+    for (key, sub, ss, kind), r in viol.items():
+        ok = True
+        for u in units(sorted(sub)):
+            t = sub - set(u)
+            if t and (key, frozenset(t), ss, kind) in viol:
+                ok = False
+                break
+        if ok:
+            out.append(r)
+    return out
+
+
+def _work(job):
+    tier, key, sub, ss, vseed = job
+    torch = impl.load()
+    torch.set_num_threads(1)
+    import warnings
+    warnings.filterwarnings("ignore")
+    sp = _cat(tier)[key] if key in _cat(tier) else find_spec(key)
+    rng = random.Random(vseed)
+    vals = gen_values(rng, sp, set(sub), ss)
+    res = oracle(sp, set(sub), ss, vals, extras=(tier != "thorough" or vseed % 7 == 0))
+    res.update(key=key, sub=list(sub), ss=list(ss), vseed=vseed)
+    if res["outcome"] in ("mix", "shape"):
+        res["min_sub"], res["min_vals"], res["min_what"] = list(sub), vals, res["what"]
+        if tier != "thorough":
+            m = minimise(sp, sub, ss, vseed, res["outcome"])
+            res["min_sub"] = m["sub"]
+            if m["last"] is not None:
+                res["min_vals"], res["min_what"] = m["last"]["vals"], m["last"]["what"]
+    return res
+
+
+def run_jobs(jobs, workers=14):
+    if len(jobs) <= 8:
+        return [_work(j) for j in jobs]
+    import multiprocessing as mp
+    ctx = mp.get_context("spawn")
+    out = []
+    with cf.ProcessPoolExecutor(max_workers=workers, mp_context=ctx) as ex:
+        for r in ex.map(_work, jobs, chunksize=max(1, min(40, len(jobs) // (workers * 6) + 1))):
+            out.append(r)
+    return out
+
+
+# ----------------------------------------------------------------------------- shape model vs implementation
+
+def _sl(s):
+    return C.coq_list(s, C.natlit)
+
+
+def rule_expr(rule, args):
+    if rule == "dist":
+        return f"show_shape (dist_sample_shape {_sl(args[0])} {_sl(args[1])})"
+    if rule == "offset":
+        return f"show_shape (offset_sample_shape {_sl(args[0])} {_sl(args[1])})"
+    if rule == "coal":
+        return f"show_shape (coalescent_sample_shape {_sl(args[0])} {_sl(args[1])})"
+    if rule == "longest":
+        return f"show_oshape (longest {C.coq_list(args[0], _sl)})"
+    if rule == "params":
+        return f"show_oshape (params_sample_shape {C.coq_list(args[0], _sl)})"
+    if rule == "container":
+        return f"show_shape (container_sample_shape {C.coq_list(args[0], _sl)} {C.coq_list(args[1], _sl)})"
+    raise ValueError(rule)
+
+
+def rule_decode(rule, flat):
+    if rule in ("longest", "params"):
+        return None if flat[0] == 0 else list(flat[1:])
+    return list(flat)
+
+
+def typed_components(jr, ss):
+    """-> list of (batched, event, rep) when every component tensor is (sample ++ event) with sample in
+    {[], ss} and reports [] or ss; else None"""
+    out = []
+    for c in jr["comps"]:
+        u, sh = c["unbatched"], c["shape"]
+        if sh == list(ss) + u and not (sh == u):
+            b = True
+        elif sh == u:
+            b = False
+        else:
+            return None
+        if c["rep"] not in ([], list(ss)):
+            return None
+        out.append((b, u, c["rep"]))
+    return out
+
+
+def py_ambiguous(typed, ss):
+    """mirror of M_tensor.ambiguous (one-axis sample shapes); for [S,K]: reported != true sample shape"""
+    for b, e, rep in typed:
+        if len(ss) == 1:
+            if b and rep == []:
+                return True
+            if (not b) and rep != [] and (e == list(ss) or len(e) > 1):
+                return True
+        else:
+            if (b and rep != list(ss)) or ((not b) and rep != []):
+                return True
+    return False
+
+
+def joint_expr(jr, ss, typed):
+    comps = C.coq_list(jr["comps"], lambda c: f"({_sl(c['shape'])}, {_sl(c['rep'])})")
+    if typed is not None and len(ss) == 1:
+        tcs = C.coq_list(typed, lambda t: f"mkTC {'true' if t[0] else 'false'} {_sl(t[1])} {_sl(t[2])} (@nil Z)")
+        amb = f"(if ambiguous {C.natlit(ss[0])} {tcs} then 1 else 0)"
+    else:
+        amb = "2"
+    return f"{amb} :: show_sym (sym_joint {_sl(jr['J'])} {comps})"
+
+
+def joint_decode(flat):
+    """-> (amb flag, None | (shape, [list of codes per entry]))"""
+    amb, flat = flat[0], flat[1:]
+    if flat[0] == 0:
+        return amb, None
+    r = flat[1]
+    shape = flat[2:2 + r]
+    rest = flat[2 + r:]
+    entries, i = [], 0
+    while i < len(rest):
+        k = rest[i]
+        entries.append(rest[i + 1:i + 1 + k])
+        i += 1 + k
+    return amb, (list(shape), entries)
+
+
+# ----------------------------------------------------------------------------- run
+
+def run(tier, seed, replay=None):
+    rep = C.Report(PID, tier, seed)
+    rep.trusted = C.COMMON_TRUSTED + [
+        "hand-written model model/M_tensor.v (tensor operations, JointDistributionModel.log_prob case analysis, "
+        "sample_shape rules) tied by correspondence: operations vs torch on random shapes, the joint model vs "
+        "JointDistributionModel on the component tensors of real models, the rules vs sample_shape of real objects",
+        "not modelled: strides (view = reshape), torch.cat's legacy skipping of 1-D empty tensors, dtype promotion; "
+        "a call that raises where the model returns a value is allowed by the property and only counted",
+        "the slice oracle builds every object through from_json (JointDistributionModel through its constructor) "
+        "and compares under relative 1e-9 (+1e-11 absolute)"]
+    t0 = time.time()
+    if replay:
+        rp = json.load(open(replay))["replay"]
+        sp = find_spec(rp["spec"])
+        r = oracle(sp, set(rp["batched"]), tuple(rp["ss"]), rp["vals"])
+        C.log(f"[C10] replay {rp['spec']} batched={rp['batched']} ss={rp['ss']}: {r['outcome']} {r.get('what', '')}")
+        if r["outcome"] in ("mix", "shape"):
+            rep.violation(finding_key(sp, rp["batched"], rp["ss"], r["outcome"]), r["what"], rp)
+        rep.case(dict(replay=rp["spec"]), True, dict(spec=rp["spec"], outcome=r["outcome"]))
+        return rep.finish()
+
+    jobs = make_jobs(tier, seed)
+    results = run_jobs(jobs)
+    rep.timings["impl_oracle"] = round(time.time() - t0, 2)
+
+    # ---- the property itself on the implementation
+    found = {}
+    outcomes = {}
+    per_group = {}
+    if tier == "thorough":
+        viol = {(r["key"], frozenset(r["sub"]), tuple(r["ss"]), r["outcome"]): r for r in results
+                if r["outcome"] in ("mix", "shape")}
+        keep = {id(r) for r in locally_minimal(viol)}
+    for r in results:
+        sp = _cat(tier)[r["key"]]
+        outcomes[r["outcome"]] = outcomes.get(r["outcome"], 0) + 1
+        g = per_group.setdefault(sp.group, {})
+        g[r["outcome"]] = g.get(r["outcome"], 0) + 1
+        rep.case(dict(spec=r["key"], sub=r["sub"], ss=r["ss"]), nontrivial=r["outcome"] in ("ok", "mix", "shape"),
+                 sample=dict(spec=r["key"], batched=r["sub"], sample_shape=r["ss"], outcome=r["outcome"],
+                             result_shapes=r.get("shapes")))
+        if r["outcome"] in ("mix", "shape") and (tier != "thorough" or id(r) in keep):
+            key = finding_key(sp, r["min_sub"], r["ss"], r["outcome"])
+            if key not in found:
+                found[key] = (key, f"{r['key']} with {sorted(r['min_sub'])} batched, sample shape {r['ss']}: "
+                                   f"{r['min_what']}",
+                              dict(spec=r["key"], batched=sorted(r["min_sub"]), ss=r["ss"], vals=r["min_vals"],
+                                   found_with=dict(batched=r["sub"], vseed=r["vseed"])))
+
+    def search():
+        return list(found.values())
+
+    C.handle_proof(rep, PID, search)
+    for f in found.values():
+        rep.violation(*f)
+
+    # ---- correspondence 1: tensor operations vs torch
+    t1 = time.time()
+    rng = random.Random(seed + 1)
+    nops = 660 if tier == "quick" else 6600
+    ops = [gen_op_case(rng, i) for i in range(nops)]
+    ops = [c for c in ops if not (c["op"] == "mean" and 0 in c["shape"])]
+    timpl = [torch_op(c) for c in ops]
+    exprs = [coq_op(c) for c in ops]
+    # ---- correspondence 2: sample_shape rules; 3: the joint model
+    rules, rule_index = {}, []
+    jexprs, jindex = [], []
+    for ri, r in enumerate(results):
+        for rec in r.get("rules", []):
+            k = json.dumps([rec["rule"], rec["args"]])
+            if k not in rules:
+                rules[k] = len(rules)
+            rule_index.append((ri, rec, rules[k]))
+        if "joint" in r:
+            typed = typed_components(r["joint"], r["ss"])
+            jexprs.append(joint_expr(r["joint"], r["ss"], typed))
+            jindex.append((ri, typed))
+    rkeys = list(rules)
+    rexprs = [rule_expr(*json.loads(k)) for k in rkeys]
+    allx = exprs + rexprs + jexprs
+    out = C.run_cases(PID, HEADER, allx, shard=max(40, len(allx) // 16 + 1), rtype="Z")
+    o_ops, o_rules, o_joint = out[:len(exprs)], out[len(exprs):len(exprs) + len(rexprs)], out[len(exprs) + len(rexprs):]
+    rep.timings["model_eval"] = round(time.time() - t1, 2)
+
+    opstat = {}
+    for c, ti, flat in zip(ops, timpl, o_ops):
+        m = decode_t(flat)
+        opstat[c["op"] + ":" + ti[0]] = opstat.get(c["op"] + ":" + ti[0], 0) + 1
+        rep.case(dict(op=c), nontrivial=True)
+        same = (m[0] == ti[0]) and (m[0] == "err" or (list(m[1]) == list(ti[1]) and list(m[2]) == list(ti[2])))
+        if not same:
+            rep.violation(f"C10:model-impl-differ:tensor-op:{c['op']}",
+                          f"torch gives {ti}, model/M_tensor.v gives {m} on {c}",
+                          dict(case=c, torch=ti, model=m, broken="correspondence M_tensor operations vs torch"), False)
+
+    rule_stat = dict(checked=0, skipped_rule_not_right_on_this_input=0)
+    for ri, rec, k in rule_index:
+        model = rule_decode(rec["rule"], o_rules[k])
+        if model != rec["truth"]:
+            rule_stat["skipped_rule_not_right_on_this_input"] += 1
+            continue
+        rule_stat["checked"] += 1
+        if rec["reported"] != model:
+            r = results[ri]
+            rep.violation(f"C10:sample_shape:{rec['cls']}:{rec['rule']}",
+                          f"{rec['cls']}.sample_shape reports {rec['reported']} where the rule "
+                          f"{rec['rule']}{rec['args']} of the model (and the parameters actually batched) give {model}; "
+                          f"{r['key']} batched {r['sub']} sample shape {r['ss']}",
+                          dict(spec=r["key"], batched=r["sub"], ss=r["ss"], vseed=r["vseed"], rule=rec), False)
+
+    jstat = dict(compared=0, agree=0, ambiguous_or_untyped=0, differs_on_ambiguous=0, impl_raises_model_value=0,
+                 model_error_impl_value_on_ambiguous=0)
+    for (ri, typed), flat in zip(jindex, o_joint):
+        r = results[ri]
+        jr = r["joint"]
+        amb, mod = joint_decode(flat)
+        pamb = True if typed is None else py_ambiguous(typed, r["ss"])
+        if typed is not None and len(r["ss"]) == 1 and amb != (1 if pamb else 0):
+            rep.violation("C10:harness:ambiguous-mirror", f"python mirror of `ambiguous` disagrees with M_tensor on {typed}",
+                          dict(typed=typed, ss=r["ss"]), False)
+        ok = None
+        if mod is not None:
+            shape, entries = mod
+            want = []
+            for e in entries:
+                want.append(sum(jr["comps"][c // 1000000]["data"][c % 1000000] for c in e))
+            ok = shape == jr["out_shape"] and len(want) == len(jr["out"]) and \
+                all(close(a, b) for a, b in zip(want, jr["out"]))
+        else:
+            ok = False
+        jstat["compared"] += 1
+        if pamb:
+            jstat["ambiguous_or_untyped"] += 1
+            if not ok:
+                jstat["differs_on_ambiguous"] += 1
+            continue
+        if ok:
+            jstat["agree"] += 1
+        else:
+            sp = _cat(tier)[r["key"]]
+            rep.violation("C10:model-impl-differ:joint",
+                          f"JointDistributionModel returns shape {jr['out_shape']} values {_fmt(jr['out'][:4])}; the model "
+                          f"of log_prob gives {'an error' if mod is None else mod[0]} on components "
+                          f"{[(c['shape'], c['rep']) for c in jr['comps']]} J={jr['J']} ({r['key']} batched {r['sub']})",
+                          dict(spec=r["key"], batched=r["sub"], ss=r["ss"], vseed=r["vseed"],
+                               broken="correspondence M_tensor.joint_log_prob vs JointDistributionModel.log_prob"), False)
+    jerr = sum(1 for r in results if r["outcome"] == "error" and _cat(tier)[r["key"]].group in ("joint", "joint1"))
+    jstat["impl_raises_not_compared"] = jerr
+
+    rep.rule = ("catalogue of callable models / transformed parameters built from JSON (tree likelihood JC69/HKY/GTR x "
+                "site models x clocks, Poisson likelihood, coalescent family x tree models, BDSK, GMRF, CTMCScale, "
+                "compound gamma-Dirichlet, reparameterised tree model, Distribution wrappers over torch/torchtree "
+                "distributions, MultivariateNormal, ScaleMixtureNormal, BayesianBridge, TransformedParameter chains, "
+                "JointDistributionModel of several / of each single component); per entry: "
+                + ("every non-empty subset of its parameters batched x sample shapes [S] S=1..5 and [S,K] (all 25 for "
+                   "<= 4 parameters, 13 covering pairs otherwise)" if tier == "thorough" else
+                   "singletons, all-but-one and all parameters batched (pairwise covering) x 2 shapes [S] + 2 shapes [S,K] drawn per subset")
+                + "; values random per sample; non-trivial = the batched call returned a value; distinct = distinct "
+                  "(entry, subset, shape) + distinct tensor-op cases")
+    rep.extra = dict(input_distribution=dict(outcomes=outcomes, per_group=per_group, tensor_ops=opstat),
+                     catalogue_entries=len(_cat(tier)), model_undefined=0,
+                     traces_validated_against_impl=len(ops) + rule_stat["checked"] + jstat["agree"],
+                     sample_shape_rules=rule_stat, joint_model=jstat,
+                     extras_errors=sum(1 for r in results if "extras_error" in r))
+    if tier == "thorough":
+        rep.exhaustive = dict(space="for every catalogue entry: all non-empty subsets of batched parameters x all "
+                                    "sample shapes [S], S in 1..5, and [S,K] as described in `rule`",
+                              size=len(jobs))
+    return rep.finish()
